@@ -27,14 +27,16 @@ def run(ctx):
     timed = [[r] for r in ["rpD", "rpUD", "rpDL", "rp1"]] + [["rpD", "rp1"], ["rp1", "rpD"], ["rpD", "cbB"]]
     mc = 4 if quick else 6
     jobs = [
-        dict(ctx=ctx, binary=binary, name="single", stacks=single, outs=OUTS, maxcalls=mc + 1 if quick else 6, execs=2 if quick else 1, workers=6),
+        dict(ctx=ctx, binary=binary, name="single", stacks=single, outs=OUTS, maxcalls=5, execs=2, workers=6),
         dict(ctx=ctx, binary=binary, name="single2", stacks=single, outs=seq.OUTS3, maxcalls=4 if quick else 5, execs=2, workers=6),
-        dict(ctx=ctx, binary=binary, name="nested", stacks=nested, outs=seq.OUTS3, maxcalls=mc, execs=1, workers=6),
+        dict(ctx=ctx, binary=binary, name="nested", stacks=nested, outs=seq.OUTS3, maxcalls=4, execs=1 if quick else 2, workers=6),
         dict(ctx=ctx, binary=binary, name="mixed", stacks=mixed, outs=seq.OUTS3, maxcalls=4, execs=2 if not quick else 1, workers=6),
-        dict(ctx=ctx, binary=binary, name="timed", stacks=timed, outs=OUTS_T, maxcalls=mc, execs=1, workers=6),
+        dict(ctx=ctx, binary=binary, name="timed", stacks=timed, outs=OUTS_T, maxcalls=mc, execs=1 if quick else 2, workers=6),
     ]
     typed = [["rpT"], ["rpTR"], ["rpT", "cbTy"], ["rpTR", "fbT"], ["fbT", "rpT"], ["rpT", "rpTR"]]
     jobs.append(dict(ctx=ctx, binary=binary, name="typed", stacks=typed, outs=seq.OUTS_TY, maxcalls=3 if quick else 4, execs=2, workers=4))
+    if not quick:      # longer scripts, one execution (5 outcomes ^ 6 invocations per unlimited policy)
+        jobs.append(dict(ctx=ctx, binary=binary, name="single6", stacks=single, outs=OUTS, maxcalls=6, execs=1, workers=6))
     mism = seq.run_jobs(ctx, jobs, par=3)
     seq.report(ctx, mism, accept)
     # "the budget belongs to one execution": overlapping executions (sync and async) through ONE policy instance, each with
